@@ -86,7 +86,7 @@ func bubbleConfigs(thorough bool) []config {
 		b = 2
 	}
 	cs = append(cs, config{Name: "out-in/2-senders/cap1", Kind: "out-in", Senders: 2, NS: 1, NR: 2, MaxW: 2, MaxR: 2, Cap: 1, SAbort: true, RAbort: true, Budget: b})
-	cs = append(cs, config{Name: "single-in/2-senders/cap1", Kind: "single-in", Senders: 2, NS: 2, NR: 2, MaxW: 1, MaxR: 2, Cap: 1, SAbort: true, RAbort: true, Budget: b})
+	cs = append(cs, config{Name: "single-in/2-senders/cap1", Kind: "single-in", Senders: 2, NS: 2, NR: 2, MaxW: 1, MaxR: 2, Cap: 1, SAbort: true, RAbort: true, Budget: b - 1})
 	if thorough {
 		for _, k := range []string{"out-in", "single-in", "out-custom"} {
 			mw := 2
@@ -196,7 +196,7 @@ func TestCheck(t *testing.T) {
 			}
 			perCfg[cfg.Name] = map[string]any{"executions": st.Executions, "distinct_outcomes": st.Outcomes, "budget": cfg.Budget, "exhaustive": st.Exhaustive,
 				"max_depth": st.MaxDepthSeen, "wall_s": st.WallS, "discarded": d, "divergences": st.Divergences}
-			if len(st.Samples) > 0 && len(samples) < 12 {
+			if len(st.Samples) > 0 && len(samples) < 40 {
 				samples = append(samples, map[string]any{"config": cfg.Name, "choices": st.Samples[0].Choices, "operations": st.Samples[0].Outcome})
 			}
 			for _, v := range st.Violations {
